@@ -29,6 +29,19 @@ chk("C14", "Coq theorems: whatever the validating skipper steps over or returns 
     "One-directional by the property's wording: the implementation may reject more than the reference (counted in the evidence as impl-chose-alternative).",
     "Coq proof (grammar soundness of the skipper on arbitrary bytes) + model-vs-code correspondence")
 
+chk("C03", "Coq theorems: the DOM visitor (node stack with pending headers, copy to the arena at container end) turns the event stream of any value into exactly the node of that value - nesting, order, duplicates - for all trees; the node buffer len/2+2 always suffices; the 64-bit node metadata round-trips for child indices below 2^29 (and is refuted beyond: F14, recorded). Tie: 11 parse drivers (in-place and copying, stream, carriers, raw-number, lossy) dumped through the public read API against the dump of the executable reference parse, alignment sweep, Meta hook.",
+    "The parser-to-visitor event stream itself (parse_value/array/object) is tied by the correspondence; numbers through Spec/Num.v.",
+    "Coq proof (induction over trees, counting argument, arithmetic) + model-vs-code correspondence")
+chk("C06", "Coq theorems: parse(print v) = v for the compact serializer and the reference parser for every tree (order and duplicates kept), and the PrettyFormatter state machine prints exactly the prescribed layout. Tie: every serialization of a parsed generated document must denote the same tree (float bits included), be exactly the model's canonical compact/pretty text of its own parse (Model/SerAll.v: spec escaper + separators + indentation), re-serialize to itself, agree across Display/to_string/to_vec; raw-number mode reproduces literals verbatim.",
+    "ryu/itoa output is not modelled: the number token the implementation printed is taken as given and checked to parse back to the same class and bits. sort_keys / arbitrary_precision feature builds are not part of this check yet.",
+    "Coq proof (induction over trees / formatter call sequences) + model-vs-code correspondence")
+chk("C09", "Coq theorems: block scanning = byte scanning for every width/offset/length; the in-place decoder equals the copying decoder, writes behind its reads and keeps unread bytes; the string scanner is sound and complete for RFC string bodies; ESCAPED_TAB and the 4x256 hex table regenerated from the source are correct entry by entry and hex_to_u32 equals the specification on all four-hex-digit inputs. Tie: 13 decoders x length/position/byte-class/offset sweep, code points through escapes, strict and lossy modes, against Spec.Ref.decode_literal (strict) and the from_utf8_lossy model (lossy).",
+    "The 32-byte block code of the decoders is tied by the sweep plus the generic block-scan theorem; surrogate-pair arithmetic is in the executable spec (not a separate theorem).",
+    "Coq proof (block-scan lemma, buffer invariant, table sweeps lifted by forallb_forall) + model-vs-code correspondence")
+chk("C13", "Coq theorems: the span captured for a lazy value is whitespace + exactly one well-formed value; mutation of a loaded owned-lazy container touches only the addressed element (frame lemmas). Tie: accessor strings of LazyValue/OwnedLazyValue obtained 7 ways, verbatim serialization, de+ser = trimmed input, Value::try_from, owned-lazy views, one mutation with a clone taken before, all against the reference parse of the raw text.",
+    "The one-level lazy load and the atomic caches are C18's subject; accessor agreement is decided by the correspondence.",
+    "Coq proof (skipper soundness, list frame lemmas) + model-vs-code correspondence")
+
 NA = {}
 ALL = ["C%02d" % i for i in range(1, 21)]
 for p in ALL:
